@@ -21,6 +21,7 @@ def jobs(tier):
         mk('C06', 'x2/other_running', S.two_bus_await('other_running', ('A', 'B'), yield_first=False)),
         mk('C06', 'par/AB', S.parallel_handlers(('A', 'B'))),
         mk('C06', 'par/same_named_handlers', S.par_same_named_handlers()),
+        mk('C06', 'restart_with_new_bus', S.restart_with_new_bus()),
         mk('C06', 'warm_other_bus/AB', S.warm_other_bus_during_await(('A', 'B'))),
         mk('C06', 'three_bus_stop', S.three_bus_stop()),
         mk('C06', 'late_first_use', S.late_first_use()),
